@@ -53,6 +53,8 @@ type stubLedger struct {
 	chain []*blk // by height
 	byID  map[string]*blk
 	snap  map[string][]byte // bucket/key -> value, same for every snapshot
+	conf  []byte            // genesis consensus configuration (GetConsensusConf)
+	kv    map[string][]byte // contract storage as of the tip (bucket/key -> value), read by the tip reader first
 }
 
 func newStubLedger() *stubLedger {
@@ -67,7 +69,7 @@ func (l *stubLedger) put(b *blk) {
 // putSide stores a block that is not on the main chain: found by id, never by height
 func (l *stubLedger) putSide(b *blk) { l.byID[string(b.id)] = b }
 
-func (l *stubLedger) GetConsensusConf() ([]byte, error) { return nil, nil }
+func (l *stubLedger) GetConsensusConf() ([]byte, error) { return l.conf, nil }
 func (l *stubLedger) QueryBlock(id []byte) (ledger.BlockHandle, error) {
 	if b, ok := l.byID[string(id)]; ok {
 		return b, nil
@@ -95,6 +97,9 @@ func (l *stubLedger) GetTipSnapshot() (ledger.XMReader, error) { return snapRead
 type tipReader struct{ l *stubLedger }
 
 func (r tipReader) Get(bucket string, key []byte) ([]byte, error) {
+	if v, ok := r.l.kv[bucket+"/"+string(key)]; ok {
+		return v, nil
+	}
 	return r.l.snap[bucket+"/"+string(key)], nil
 }
 
